@@ -179,7 +179,8 @@ C12_order, full statement (DESIGN section 5): (a) the stream is FIFO, (b) blocke
 the items offered by `t` enter the stream in the order `t` offered them:
   (s.entered.filter (offered by t)) is a sublist of ((s.offered.filter (·.1 = t)).map (·.2)).
 (a)-(c) are proved above (`C12_order_fifo`, `C12_order_blocked_receivers`,
-`C12_order_blocked_senders`).  (d) is NOT proved: it follows informally from `entered` being
+`C12_order_blocked_senders`).  (d) is proved in `Props/C12order.lean` (`C12_order_entry`, `C12_order`), which
+supersedes the `_partial` theorem below; the remark written before that proof existed: (d) is NOT proved here: it follows informally from `entered` being
 append-only and a task's calls being sequential (a new call needs `pc t = idle`, an item enters
 only during its own send call or from its sender's queue entry), and with (a) gives per-sender
 delivery order.  The harness oracle checks per-(sender, receiver) order on every run.
